@@ -351,9 +351,15 @@ fn do_write_sync(ctx: &Ctx, s: &WriteSpec) -> Out {
                 Ok(w) => w,
                 Err(e) => return err_out(e),
             };
-            for ch in cut_chunks(&data, &s.chunks) {
+            for (ci, ch) in cut_chunks(&data, &s.chunks).into_iter().enumerate() {
                 if let Err(e) = sync_write_chunk(&mut w, ch) {
                     return io_out(e);
+                }
+                // `flush` means: flush in mid-stream (after the first chunk) and at the end
+                if s.flush && ci == 0 {
+                    if let Err(e) = w.flush() {
+                        return io_out(e);
+                    }
                 }
             }
             if s.flush {
@@ -384,9 +390,14 @@ async fn do_write_async(ctx: &Ctx<'_>, s: &WriteSpec) -> Out {
                 Ok(w) => w,
                 Err(e) => return err_out(e),
             };
-            for ch in cut_chunks(&data, &s.chunks) {
+            for (ci, ch) in cut_chunks(&data, &s.chunks).into_iter().enumerate() {
                 if let Err(e) = async_write_chunk(&mut w, ch).await {
                     return io_out(e);
+                }
+                if s.flush && ci == 0 {
+                    if let Err(e) = w.flush().await {
+                        return io_out(e);
+                    }
                 }
             }
             if s.flush {
